@@ -78,6 +78,8 @@ def long_history(seed):
 
 def sess_damaged(seed, explore=False):
     r, lines, types = dp.make_doc(seed, 'main', blank_lines=True, max_rows=18)
+    import copy
+    clean = copy.deepcopy(lines)
     cand = []
     for li, e in enumerate(lines):
         if e['ev'] == 'row' and not ({c['k'] for c in e['cells']} & {'split', 'join', 'term'}) and not all(c['k'] == 'fcom' for c in e['cells']):
@@ -107,10 +109,45 @@ def sess_damaged(seed, explore=False):
     if doc is not None:
         evs.append(session.record_call(doc, {'op': 'dumps', 'args': session.dumps_args(), 'exact': True, 'malformed': True}))
         evs.append(session.record_call(doc, {'op': 'dumps', 'args': session.dumps_args(enc='ekern'), 'exact': True, 'malformed': True}))
-        evs.append(session.record_call(doc, {'op': 'listing', 'args': {'incall': False, 'inc': ['ERROR']}}))
+        # every OTHER token exactly as without the damage: the same code imports the undamaged text, node by node
+        same = others_unchanged(doc, clean, damaged)
+        evs.append({'ev': 'call', 'op': 'flag', 'name': 'import.others_as_without_damage', 'value': same, 'args': {}, 'snap': evs[-1]['snap']})
     s = dp.finish_session(lines, evs, text, seed, dp.features(lines) | {'damaged:%d' % len(damaged)}, classes)
     s['damaged'] = damaged
     return s
+
+
+def others_unchanged(doc, clean_lines, damaged):
+    import kernpy as kp
+    try:
+        ref, _ = kp.loads(session.render(clean_lines))
+    except Exception:  # noqa
+        return False
+    if [len(s) for s in doc.tree.stages] != [len(s) for s in ref.tree.stages]:
+        return False
+    hit = set()
+    k = 0
+    stage_of_line = {}
+    for li, e in enumerate(clean_lines):
+        if e['ev'] != 'blank':
+            k += 1
+            stage_of_line[li] = k
+    for (li, ci, _bad) in damaged:
+        hit.add((stage_of_line[li], ci))
+    pa, pb = session.positions(doc), session.positions(ref)
+    for si, (sa, sb) in enumerate(zip(doc.tree.stages, ref.tree.stages)):
+        for ci, (na, nb) in enumerate(zip(sa, sb)):
+            if (si, ci) in hit or na.token is None:
+                continue
+            ta, tb = na.token, nb.token
+            if (type(ta).__name__, ta.category, ta.encoding, ta.hidden) != (type(tb).__name__, tb.category, tb.encoding, tb.hidden):
+                return False
+            if session.ptr(pa, na.parent) != session.ptr(pb, nb.parent):
+                return False
+            if hasattr(ta, 'pitch_duration_subtokens') and ([(x.encoding, x.category) for x in ta.pitch_duration_subtokens + ta.decoration_subtokens]
+                                                            != [(x.encoding, x.category) for x in tb.pitch_duration_subtokens + tb.decoration_subtokens]):
+                return False
+    return True
 
 
 def main():
